@@ -22,6 +22,13 @@ sys.path.insert(0, os.path.join(ROOT, 'lib'))
 import tlaval  # noqa: E402
 
 NCPU = os.cpu_count() or 4
+# development throttle (file is git-ignored, absent in a fresh restore): several agents share the machine
+try:
+    NCPU = max(1, int(open(os.path.join(ROOT, '.ncpu')).read().strip()))
+except Exception:
+    pass
+if os.environ.get('VERIF_NCPU'):
+    NCPU = max(1, int(os.environ['VERIF_NCPU']))
 
 
 class Inconclusive(Exception):
